@@ -7,7 +7,7 @@ import numpy as np
 
 from .world import Monitor
 from .refmodels import ref_rk_step, ref_split_step, stage_residual, RefHermite, bitwise_equal, eps_of
-from .peers import Boom
+from .peers import Boom, BudgetExceeded, WallTimeout
 
 
 def _f(x):
@@ -440,6 +440,14 @@ class Accuracy(Monitor):
         if len(t) < 2:
             return
         k = world.system.constants.get("k", 1.0)
+        if not (np.all(np.isfinite(np.asarray(t, dtype=np.float64))) and np.all(np.isfinite(np.asarray(y, dtype=np.float64)))):
+            # "an error is raised instead of an inaccurate state being recorded": a call that returns normally with non-finite rows
+            bad_row = int(np.argmax(~np.isfinite(np.asarray(y, dtype=np.float64).reshape(len(t), -1)).all(axis=1) | ~np.isfinite(np.asarray(t, dtype=np.float64))))
+            world.violate(self.prop, self.prop + ".finite_result", "integrate() returned normally (status: %s) with a non-finite row %d of %d (t=%r)"
+                          % (snap["status"][:40], bad_row, len(t), _f(t[bad_row])))
+            return
+        if world.scn.get("overflow_try"):
+            return      # spans of hundreds of time constants: only "finite or an error" is judged
         exact = world.problem.exact(t[-1], t[0], np.asarray(y[0], dtype=np.float64), k=k)
         err = float(np.max(np.abs(np.asarray(y[-1], dtype=np.float64) - exact)))
         rtol, atol = _f(integ.rtol), _f(integ.atol)
@@ -514,8 +522,11 @@ class Dense(Monitor):
         if len(te) != len(sol.y_interpolants):
             world.violate(P, P + ".coverage", "len(t_eval)=%d but %d interpolants" % (len(te), len(sol.y_interpolants)))
             return
-        if len(d) and not (np.all(d > 0) or np.all(d < 0)):
-            world.violate(P, P + ".ordered", "sol.t_eval is not strictly monotone: %r" % ([float(v) for v in tev[:12]],))
+        # Richardson sub-steps of a step that is only a few units of the time resolution long (float32 at |t| ~ 200, a roll-back of
+        # 5 ulps split 32 ways) end at coinciding times: order is demanded, strictness only for one piece per step
+        mono_ok = (np.all(d > 0) or np.all(d < 0)) if not rich else (np.all(d >= 0) or np.all(d <= 0))
+        if len(d) and not mono_ok:
+            world.violate(P, P + ".ordered", "sol.t_eval is not %smonotone: %r" % ("" if rich else "strictly ", [float(v) for v in tev[:12]],))
         rec = t[1:]
         if not rich:
             # piece end times are compared within 2 ulp of the state's precision: the integrator may carry the step
@@ -662,6 +673,43 @@ class Lookup(Monitor):
 
     def __init__(self, prop="C19"):
         self.prop = prop
+        self.steps_seen = 0
+
+    def _whole_run(self, world, system, where):
+        """lookups made while the system still holds unused storage (before the first call, from inside a running call)."""
+        P = self.prop
+        t, y = system.t, system.y
+        n = len(t)
+        if n >= 2 and not (np.all(np.diff(t) > 0) or np.all(np.diff(t) < 0)):
+            return
+        try:
+            if n >= 2:
+                sl = system[t[0]:t[-1]]
+                if not (len(sl.t) == n and bitwise_equal(np.asarray(sl.t), np.asarray(t)) and bitwise_equal(np.asarray(sl.y), np.asarray(y))):
+                    world.violate(P, P + ".whole_run_slice", "%s: system[t[0]:t[-1]] returned %d rows, the run has %d recorded rows" % (where, len(sl.t), n))
+            got = system[n - 1]
+            if not (bitwise_equal(np.asarray(got.t), np.asarray(t[-1])) and bitwise_equal(np.asarray(got.y), np.asarray(y[-1]))):
+                world.violate(P, P + ".index", "%s: system[%d] is not the last recorded row" % (where, n - 1))
+            try:
+                system[n]
+                world.violate(P, P + ".index_out_of_range", "%s: system[%d] did not raise IndexError with %d recorded rows" % (where, n, n))
+            except IndexError:
+                pass
+            if len(system) != n or sum(1 for _ in system) != n:
+                world.violate(P, P + ".iteration", "%s: len/iteration disagree with the %d recorded rows" % (where, n))
+        except (BudgetExceeded, WallTimeout):
+            raise
+        except Exception as e:
+            world.violate(P, P + ".time_lookup", "%s: lookup raised %s: %s" % (where, type(e).__name__, str(e)[:80]))
+
+    def after_build(self, world):
+        self._whole_run(world, world.system, "before the first integrate")
+
+    def on_step(self, world, system):
+        self.steps_seen += 1
+        if self.steps_seen <= 6 or self.steps_seen % 7 == 0:
+            world.probe("lookup_from_callback")
+            self._whole_run(world, system, "inside integrate (callback after step %d)" % self.steps_seen)
 
     def after_op(self, world, i, op, pre, snap):
         P = self.prop
